@@ -27,7 +27,7 @@ func runC13(c *Ctx) {
 	dos := callsIn(sub, "(*net/http.Client).Do")
 	rrs := callsIn(sub, "(rt.ClientResponseReader).ReadResponse")
 	pms := callsIn(sub, "mime.ParseMediaType")
-	c.obF("R13.1", sub, "shape", len(dos) == 1 && len(rrs) >= 1 && len(pms) == 1, "Submit sends, parses the content type and hands the response to the reader", fmt.Sprintf("%d Do, %d ReadResponse, %d ParseMediaType", len(dos), len(rrs), len(pms)))
+	c.obRF("R13.1", sub, "shape", len(dos) == 1 && len(rrs) >= 1 && len(pms) == 1, "Submit sends, parses the content type and hands the response to the reader", fmt.Sprintf("%d Do, %d ReadResponse, %d ParseMediaType", len(dos), len(rrs), len(pms)))
 	if len(dos) != 1 || len(rrs) < 1 || len(pms) != 1 {
 		return
 	}
@@ -83,7 +83,18 @@ func ruleC13For(c *Ctx, sub *ssa.Function, do, rr, pm *ssa.Call, first bool) {
 		s, okS := constString(lk.Index)
 		return okS && s == "*/*"
 	}
-	okC, badC := allOrigins(cons, exact, catchAll, oNil()) // (nil: a helper's result on its error path; the reader runs only when a consumer was found, checked below)
+	// both keys tried through ONE lookup, in the order of a local candidate table {mediaType, "*/*"}
+	isMT := vOrigins(oIsValue(mt))
+	isAny := func(v ssa.Value) bool { k, okk := constString(v); return okk && k == "*/*" }
+	tabled := func(o Origin) bool {
+		lk, ok := o.V.(*ssa.Lookup)
+		if !ok || !isConsumers(lk.X) || (o.Index != 0 && o.Index != -1) {
+			return false
+		}
+		okK, _ := allOrigins(lk.Index, oIsValue(mt), oConstString("*/*"))
+		return okK
+	}
+	okC, badC := allOrigins(cons, exact, catchAll, tabled, oNil()) // (nil: a helper's result on its error path; the reader runs only when a consumer was found, checked below)
 	c.obI("R13.1", rr, "consumer-provenance", okC, "the consumer handed to the reader is Consumers[mediaType] with mediaType the result of mime.ParseMediaType, or the catch-all Consumers[\"*/*\"] — never another consumer and never a key taken from the raw header", "origin "+describeOrigin(badC))
 	// catch-all only on a miss; missing both -> error
 	var exactLk, anyLk *ssa.Lookup
@@ -100,8 +111,16 @@ func ruleC13For(c *Ctx, sub *ssa.Function, do, rr, pm *ssa.Call, first bool) {
 		c.obI("R13.1", anyLk, "catch-all-only-on-miss", guardedBy(anyLk, exactLk, factBool(vIs(extractOf(exactLk, 1)), false)), "the catch-all consumer is consulted only when the media type has no consumer of its own", "")
 		found := anyFact(factBool(vIs(extractOf(exactLk, 1)), true), factBool(vIs(extractOf(anyLk, 1)), true))
 		c.obI("R13.1", rr, "reader-needs-a-consumer", guardedBy(rr, exactLk, found), "the reader runs only when a consumer was found; otherwise the call fails", "ReadResponse reachable without a consumer")
+	} else if exactLk != nil && anyLk == nil && exactLk.CommaOk {
+		// table form
+		found, okOrd := candidateTableOrder(sub, isMT, isAny)
+		c.obRF("R13.1", sub, "lookups", found, "Submit looks the consumer up with comma-ok, exact then catch-all", "one lookup, but no candidate table {mediaType, \"*/*\"} found")
+		if found {
+			c.obI("R13.1", exactLk, "catch-all-only-on-miss", okOrd, "the catch-all consumer is consulted only when the media type has no consumer of its own (the media type comes first in the table of keys)", "\"*/*\" is tried before the media type")
+			c.obI("R13.1", rr, "reader-needs-a-consumer", guardedBy(rr, nil, factBool(vIs(extractOf(exactLk, 1)), true)), "the reader runs only when a consumer was found; otherwise the call fails", "ReadResponse reachable without a consumer")
+		}
 	} else {
-		c.obF("R13.1", sub, "lookups", false, "Submit looks the consumer up with comma-ok, exact then catch-all", "")
+		c.obRF("R13.1", sub, "lookups", false, "Submit looks the consumer up with comma-ok, exact then catch-all", "")
 	}
 	checkErrorsReturned(c, "R13.1", sub, 1, nil)
 	// the error for a missing consumer names the content type
@@ -173,7 +192,7 @@ func ruleC13For(c *Ctx, sub *ssa.Function, do, rr, pm *ssa.Call, first bool) {
 
 	// R13.3 precedence
 	recvDo, _ := callArgs(&do.Call)
-	okP, badP := allOrigins(recvDo, oFieldLoad("rt.ClientOperation", "Client", nil), oFieldLoad(runtimeT, "client", nil))
+	okP, badP := allOrigins(recvDo, oFieldLoad("rt.ClientOperation", "Client", nil), oFieldLoad(runtimeT, "client", nil), oNil())
 	whyP := "origin " + describeOrigin(badP)
 	if okP {
 		if phi, isPhi := recvDo.(*ssa.Phi); isPhi {
@@ -187,6 +206,12 @@ func ruleC13For(c *Ctx, sub *ssa.Function, do, rr, pm *ssa.Call, first bool) {
 		} else {
 			okP, whyP = false, "no choice between the operation's and the transport's client"
 		}
+	}
+	if found, okOrd := candidateTableOrder(sub, vFieldLoadO("rt.ClientOperation", "Client"), vFieldLoadO(runtimeT, "client")); found && !okOrd {
+		okP, whyP = false, "in the table of candidate clients the transport's client is listed before the operation's"
+	}
+	if found, okOrd := candidateTableOrder(sub, vFieldLoadO("rt.ClientOperation", "Context"), vFieldLoadO(runtimeT, "Context")); found {
+		c.obF("R13.3", sub, "context-candidates-ordered", okOrd, "in the table of candidate parent contexts the operation's context comes before the transport-wide one", "the transport-wide context is listed first")
 	}
 	c.obI("R13.3", do, "operation-client-first", okP, "the per-operation HTTP client takes precedence over the transport-wide one", whyP)
 
@@ -220,7 +245,7 @@ func ruleC13For(c *Ctx, sub *ssa.Function, do, rr, pm *ssa.Call, first bool) {
 		}
 		c.obI("R13.3", ld, "operation-context-first", okU, "the transport-wide context is used (as parent, or asked for its state) only when the operation carries none: a per-operation context takes precedence, and the state of the transport-wide context cannot fail or bound a call that brought its own", whyU)
 	}
-	c.obF("R13.3", sub, "reads-transport-context", nCtx >= 1, "Submit falls back to the transport-wide context", fmt.Sprintf("%d reads", nCtx))
+	c.obRF("R13.3", sub, "reads-transport-context", nCtx >= 1, "Submit falls back to the transport-wide context", fmt.Sprintf("%d reads", nCtx))
 
 	// R13.4 shared state
 	entries := []*ssa.Function{sub, p.Fn("(*rt/client.Runtime).CreateHttpRequest")}
@@ -241,7 +266,7 @@ func ruleC13For(c *Ctx, sub *ssa.Function, do, rr, pm *ssa.Call, first bool) {
 				continue
 			}
 			if g, isG := st.Addr.(*ssa.Global); isG && isRepoPath(g.Pkg.Pkg.Path()) && !strings.HasPrefix(g.Name(), "init$") {
-				c.obI("R13.4", st, "global-write", false, "a client call never writes package-level variables", "store to "+short(g.String()))
+				c.obD("R13.4", st, "global-write", false, "a client call never writes package-level variables", "store to "+short(g.String()))
 				continue
 			}
 			fa, ok := st.Addr.(*ssa.FieldAddr)
@@ -298,10 +323,10 @@ func ruleC13For(c *Ctx, sub *ssa.Function, do, rr, pm *ssa.Call, first bool) {
 					}
 				}
 			}
-			c.obI("R13.4", st, "runtime-write-"+field, okW, "the only field of the shared Runtime written on a call path is `client`, once, under sync.Once, with a fresh http.Client built from the transport's own Transport and Jar", whyW)
+			c.obD("R13.4", st, "runtime-write-"+field, okW, "the only field of the shared Runtime written on a call path is `client`, once, under sync.Once, with a fresh http.Client built from the transport's own Transport and Jar", whyW)
 		}
 	}
-	c.obF("R13.4", sub, "lazy-client-under-once", nOnce == 1, "the shared client is created lazily under the sync.Once", fmt.Sprintf("%d guarded initialisations", nOnce))
+	c.obRF("R13.4", sub, "lazy-client-under-once", nOnce == 1, "the shared client is created lazily under the sync.Once", fmt.Sprintf("%d guarded initialisations", nOnce))
 	ch := p.Fn("(*rt/client.Runtime).createHttpRequest")
 	for _, b := range callsIn(ch, "(*rt/client.request).buildHTTP") {
 		recvB, _ := callArgs(b.Common())
